@@ -334,6 +334,10 @@ def _oracle_partition_problem(payload, real, used):
     else:
         eff = list(labs)
     legit = False
+    if labs is not None and any(eff[q] is None for i in instrs if i["name"] == "barrier" for q in i["qubits"]):
+        # a barrier is an operation too: the package documents that a qubit labelled `None` "cannot be used in the circuit" and refuses
+        # with ValueError (false alarm of the thorough tier at seed 0, corrected: the clause used to look at non-barrier instructions only)
+        legit = True
     for i in nonbar:
         ls = {eff[q] for q in i["qubits"]}
         if None in ls:
